@@ -4,13 +4,20 @@
 package main
 
 import (
+	"encoding/json"
+	"fmt"
 	"os"
 	"path/filepath"
 	"sort"
 	"time"
 
 	"github.com/emitter-io/emitter/internal/message"
+	"github.com/emitter-io/emitter/internal/provider/contract"
 	"github.com/emitter-io/emitter/internal/provider/storage"
+	"github.com/emitter-io/emitter/internal/security"
+	"github.com/emitter-io/emitter/internal/security/hash"
+	"github.com/emitter-io/emitter/internal/service/fake"
+	"github.com/emitter-io/emitter/internal/service/history"
 	"github.com/emitter-io/emitter/internal/zzverif/vlib"
 )
 
@@ -240,6 +247,60 @@ func lapse(k int) []string {
 	return out
 }
 
+// ---- pages of emitter/history/ requests -----------------------------------------------------------------
+
+type allowAll struct{}
+
+func (allowAll) Authorize(ch *security.Channel, perm uint8) (contract.Contract, security.Key, bool) {
+	k := security.Key(make([]byte, 24))
+	k.SetContract(1)
+	k.SetPermissions(perm)
+	return nil, k, true
+}
+
+// pages: messages (one per second) are stored on a/b/c/; for a filter, history is requested page by
+// page through the real request handler (last=2, continued from the oldest id of the page before) and
+// once as a whole.  The pages must be disjoint and together be the whole.
+func pages(filter string, n int) (full []string, pgs [][]string) {
+	st := storage.NewInMemory(nil)
+	st.Configure(nil)
+	defer st.Close()
+	now := time.Now().Unix()
+	ssid := message.Ssid{1, hash.OfString("a"), hash.OfString("b"), hash.OfString("c")}
+	for i := 0; i < n; i++ {
+		m := message.New(ssid, []byte("a/b/c/"), []byte(fmt.Sprintf("m%02d", i)))
+		m.ID.SetTime(now - int64(n-i))
+		m.TTL = 3600
+		st.Store(m)
+	}
+	h := history.New(allowAll{}, st)
+	ask := func(last int, from message.ID) []history.Message {
+		req, _ := json.Marshal(map[string]interface{}{"key": "k", "channel": fmt.Sprintf("k/%s?last=%d", filter, last), "startFromID": from})
+		resp, ok := h.OnRequest(&fake.Conn{}, req)
+		if !ok {
+			return nil
+		}
+		return resp.(*history.Response).Messages
+	}
+	for _, m := range ask(1000, nil) {
+		full = append(full, string(m.Payload))
+	}
+	var from message.ID
+	for p := 0; p < 12; p++ {
+		ms := ask(2, from)
+		if len(ms) == 0 {
+			break
+		}
+		var pg []string
+		for _, m := range ms {
+			pg = append(pg, string(m.Payload))
+		}
+		pgs = append(pgs, pg)
+		from = ms[0].ID // answers are ordered by time: the first is the oldest
+	}
+	return
+}
+
 func main() {
 	cfg = vlib.ParseFlags()
 	sh := vlib.NewShards(cfg.Out, "C06", "From Emitter Require Import Lib.Base Model.MsgCodec Model.Store Check.C06.", "case", "check", 12)
@@ -256,10 +317,28 @@ func main() {
 		}
 		sh.Add(t, h, cl, true)
 	}
+	for _, filter := range []string{"a/b/c/", "a/b/", "a/", "a/+/c/", "a/+/"} {
+		n := 3 + cfg.Rng.Intn(6)
+		full, pgs := pages(filter, n)
+		var pt []string
+		for _, pg := range pgs {
+			var items []string
+			for _, x := range pg {
+				items = append(items, vlib.Str(x))
+			}
+			pt = append(pt, vlib.List(items))
+		}
+		var ft []string
+		for _, x := range full {
+			ft = append(ft, vlib.Str(x))
+		}
+		sh.Add(vlib.App("CPages", vlib.N(uint64(n)), vlib.List(ft), vlib.List(pt)),
+			map[string]interface{}{"op": "history request pages", "filter": filter, "stored": n, "pages": len(pgs)}, "request-pages", true)
+	}
 	for b := 0; b < cfg.Mult; b++ {
 		for _, t := range lapse(8) {
 			sh.Add(t, map[string]interface{}{"op": "continuation across expiry"}, "lapse", true)
 		}
 	}
-	sh.Finish("stores of 5-30 messages over contracts {5,9,6} x levels {9,5,11,255,0x1ff,0xffffffff} (5/9 and 9/5 collide in the 32-bit key prefix; ids ending in 0xff) depth 1-3, ages 0..5000 s with many per second, ttl short / long / retained / already expired, payloads up to 30000 bytes (reply-size cap); every 6th store on one channel with payloads of 2 / 20000 / 30000 / 40000 bytes mixed (the cap is crossed in the middle of a page) and single messages near or above the cap (65500 - 65536 bytes of payload); one-second and inverted windows; 6-16 queries each: filters with wildcards, shorter and longer than stored channels, windows, limits 0..100000, continuation from ids of the previous answer or any stored id; in-memory provider and (every 4th) the on-disk provider; lapse: stores whose short-lived messages expire between page 1 and the continuation page (real 5 s pause), continuation from the first / last id of page 1; non-trivial: all")
+	sh.Finish("stores of 5-30 messages over contracts {5,9,6} x levels {9,5,11,255,0x1ff,0xffffffff} (5/9 and 9/5 collide in the 32-bit key prefix; ids ending in 0xff) depth 1-3, ages 0..5000 s with many per second, ttl short / long / retained / already expired, payloads up to 30000 bytes (reply-size cap); every 6th store on one channel with payloads of 2 / 20000 / 30000 / 40000 bytes mixed (the cap is crossed in the middle of a page) and single messages near or above the cap (65500 - 65536 bytes of payload); one-second and inverted windows; 6-16 queries each: filters with wildcards, shorter and longer than stored channels, windows, limits 0..100000, continuation from ids of the previous answer or any stored id; in-memory provider and (every 4th) the on-disk provider; request-pages: emitter/history/ requests through the real handler, page by page with startFromID, for filters as deep as and shallower than the stored channel; lapse: stores whose short-lived messages expire between page 1 and the continuation page (real 5 s pause), continuation from the first / last id of page 1; non-trivial: all")
 }
